@@ -35,12 +35,12 @@ def md5(s):
     return hashlib.md5(s).hexdigest()[:16]
 
 
-def mk_message(ids, nbytes_data=64, mtv=33, centre=0, subcentre=0, ltv=0, nsub=1, pattern=False):
+def mk_message(ids, nbytes_data=64, mtv=33, centre=0, subcentre=0, ltv=0, nsub=1, pattern=False, compressed=False):
     """edition-4 message, uncompressed; data section all zero, or a fixed byte pattern
     (so that decoded values depend on the field widths in force)"""
     sec1 = (22).to_bytes(3, 'big') + bytes([0]) + centre.to_bytes(2, 'big') + subcentre.to_bytes(2, 'big') + \
         bytes([0, 0, 0, 0, 0, mtv, ltv]) + (2020).to_bytes(2, 'big') + bytes([1, 1, 0, 0, 0])
-    body3 = bytes([0]) + nsub.to_bytes(2, 'big') + bytes([0x80]) + b''.join(
+    body3 = bytes([0]) + nsub.to_bytes(2, 'big') + bytes([0xC0 if compressed else 0x80]) + b''.join(
         (((i // 100000) << 14) | ((i // 1000 % 100) << 8) | (i % 1000)).to_bytes(2, 'big') for i in ids)
     sec3 = (len(body3) + 3).to_bytes(3, 'big') + body3
     body4 = bytes([0]) + (bytes((i * 37 + 11) % 256 for i in range(nbytes_data)) if pattern else bytes(nbytes_data))
